@@ -27,7 +27,7 @@ from ..enum import collide as _collide  # noqa: E402
 # pairs of ids whose hash keys ('' / 'salt1' / 's' / 'k' + id) collide under crc32 and have equal length, adjacent in the list
 IDS = list(range(40)) + [f"u{i}@x.org" for i in range(16)] + ["", "é", 1.5, None, True, "1", 1, -1] + \
     [x for _pre, a, b in _collide.crc32_id_pairs(prefixes=("", "salt1", "s", "k"), n=3) for x in (a, b)] + \
-    _collide.near_twin_values()  # distinct ids that a tidying step (strip, case fold, NFC/NFKC, int()) would identify
+    vals.OBJECTS + _collide.near_twin_values()  # tuple / list / dict / bytes / Fraction ... ids (their str() is the key); distinct ids that a tidying step (strip, case fold, NFC/NFKC, int()) would identify
 MULTI = (("A", "1"), ("B", "2"), ("C", "3"))
 
 
